@@ -16,6 +16,7 @@ import (
 	"fmt"
 	"io"
 	"testing"
+	"testing/iotest"
 
 	"github.com/emmansun/gmsm/ecdh"
 	"github.com/emmansun/gmsm/sm2"
@@ -85,6 +86,11 @@ type c04Case struct {
 	RecordKA   bool   `json:"recka"`
 	Up         []int  `json:"up"`   // sizes of the client's writes
 	Down       []int  `json:"down"` // sizes of the server's writes
+	// ShortRand: both configurations draw their randomness from a reader that hands out one byte per
+	// Read call (legal for an io.Reader)
+	ShortRand bool `json:"shortrand,omitempty"`
+	// EmptyMsg: (datagram stack) an empty datagram is sent in front of every application write
+	EmptyMsg bool `json:"emptymsg,omitempty"`
 }
 
 type c04Conv struct {
@@ -249,6 +255,7 @@ func c04Analyze(r *vfPair, c c04Case, resumed bool, prev *c04Conv, ccache, scach
 		key, iv, mac := keys.dir(d.client)
 		okey, oiv, omac := keys.dir(!d.client)
 		seenExplicit := map[string]bool{}
+		seenSeq := map[string]bool{}
 		var lastExplicit []byte
 		seenRaw := map[string]bool{}
 		who := "server"
@@ -288,6 +295,13 @@ func c04Analyze(r *vfPair, c c04Case, resumed bool, prev *c04Conv, ccache, scach
 				return nil, "nonce-repeat", fmt.Sprintf("%s reused the explicit nonce/IV %x under one key", who, rec.Frag[:en])
 			}
 			seenExplicit[ex] = true
+			if vfStack == "dtlcp" {
+				sk := fmt.Sprintf("%d/%d", rec.Epoch, rec.Seq)
+				if seenSeq[sk] {
+					return nil, "sequence-number-repeat", fmt.Sprintf("%s sent two protected records with epoch %d sequence number %d", who, rec.Epoch, rec.Seq)
+				}
+				seenSeq[sk] = true
+			}
 			if gcm {
 				if lastExplicit != nil && bytes.Compare(rec.Frag[:en], lastExplicit) <= 0 {
 					return nil, "nonce-order", fmt.Sprintf("%s GCM explicit nonce not strictly increasing: %x after %x", who, rec.Frag[:en], lastExplicit)
@@ -353,6 +367,9 @@ func c04Run(c c04Case) (sig, msg string, nontrivial bool) {
 	ccfg, scfg := vfBaseConfigs(c.Suite, c.ClientAuth)
 	cc, sc := vfNewCapCache(8), vfNewCapCache(8)
 	ccfg.SessionCache, scfg.SessionCache = cc, sc
+	if c.ShortRand {
+		ccfg.Rand, scfg.Rand = iotest.OneByteReader(rand.Reader), iotest.OneByteReader(rand.Reader)
+	}
 	encKey := p.SrvEnc.PrivateKey.(*sm2.PrivateKey)
 	var recka *vfRecKA
 	if c.RecordKA && vfIsECDHE(c.Suite) {
@@ -378,6 +395,11 @@ func c04Run(c c04Case) (sig, msg string, nontrivial bool) {
 			CliAct: func(cn *Conn) error {
 				off := 0
 				for _, n := range c.Up {
+					if c.EmptyMsg {
+						if err := c04SendEmpty(cn); err != nil {
+							return err
+						}
+					}
 					if err := vfSendAll(cn, up[off:off+n]); err != nil {
 						return err
 					}
@@ -392,6 +414,11 @@ func c04Run(c c04Case) (sig, msg string, nontrivial bool) {
 				}
 				off := 0
 				for _, n := range c.Down {
+					if c.EmptyMsg {
+						if err := c04SendEmpty(cn); err != nil {
+							return err
+						}
+					}
 					if err := vfSendAll(cn, down[off:off+n]); err != nil {
 						return err
 					}
@@ -420,7 +447,7 @@ func c04Run(c c04Case) (sig, msg string, nontrivial bool) {
 }
 
 func TestVF_C04(t *testing.T) {
-	rec := vfRec("C04", "C04-keyschedule", "suite x full/resumed x client auth x (ECDHE: recorded pre-master or not) x per-direction lists of write sizes (0..40000 on the stream stack, 0..5000 on the datagram stack); oracle: independent PRF/key-block/record-protection derivation must reproduce the tapped conversation; non-trivial = completed with at least one protected application record in each direction; distinct = hash of the case")
+	rec := vfRec("C04", "C04-keyschedule", "suite x full/resumed x client auth x (ECDHE: recorded pre-master or not) x per-direction lists of write sizes (0..40000 on the stream stack, 0..5000 on the datagram stack; sometimes 257..700 records in one direction) x randomness source that returns one byte per Read x (datagram stack) empty datagrams in front of the writes; oracle: independent PRF/key-block/record-protection derivation must reproduce the tapped conversation; non-trivial = completed with at least one protected application record in each direction; distinct = hash of the case")
 	maxSz := 40000
 	if vfStack == "dtlcp" {
 		maxSz = 5000
@@ -429,6 +456,7 @@ func TestVF_C04(t *testing.T) {
 	vfRapid(t, rec, "conversations", vfN(240, 6000), func(t *rapid.T) {
 		c := c04Case{Suite: rapid.SampledFrom(vfSuites).Draw(t, "suite"), Resumed: rapid.Bool().Draw(t, "resumed"),
 			ClientAuth: rapid.Bool().Draw(t, "auth"), RecordKA: rapid.Bool().Draw(t, "recka"),
+			ShortRand: rapid.IntRange(0, 4).Draw(t, "shortrand") == 0, EmptyMsg: vfStack == "dtlcp" && rapid.IntRange(0, 3).Draw(t, "emptymsg") == 0,
 			Up: rapid.SliceOfN(sizeGen, 1, 4).Draw(t, "up"), Down: rapid.SliceOfN(sizeGen, 1, 4).Draw(t, "down")}
 		// one case in eight sends more than 256 (and more than 65536/… is out of reach) records in one
 		// direction, so that the sequence number's carry into the second byte is exercised
